@@ -13,3 +13,4 @@ pub use serde;
 pub use serde_json;
 pub mod stream;
 pub mod util;
+pub mod shape;
